@@ -1176,7 +1176,7 @@ class SCFGIO:
         for b in sorted(blocks):
             ys += indent(f"'{b}':\n", " " * 8)
             for k, v in blocks[b].items():
-                ys += indent(f"{k}: {v}\n", " " * 12)
+                ys += indent(f"{k}: {v!r}\n", " " * 12)
 
         ys += "\nedges:\n"
         for b in sorted(blocks):
